@@ -1120,6 +1120,10 @@ impl Runner {
                 let prop = match &spec {
                     AutSpec::Always => "C03",
                     AutSpec::Lev(_, _) => "C17",
+                    // an automaton that overrides `accept_eof` is OUTSIDE C04's contract ("no end-of-key
+                    // hook"): a wrong result here contradicts no given property (tag C00); it breaks the
+                    // correspondence with the model (theorem C04_search_eof), nothing more
+                    AutSpec::DfaE(_, _) => "C00 beyond-contract(accept_eof hook)",
                     // (C18: pruning by the hints of a built-in automaton must not change the result)
                     _ => "C04 C18",
                 };
@@ -1135,7 +1139,8 @@ impl Runner {
                             s = aut.accept(&s, b);
                         }
                         let ws = auts::show_state(&aut, &s);
-                        self.check(&ws == st, || format!("C04 state for key {} is {} want {}", hex(k), st, ws));
+                        let p = if matches!(&spec, AutSpec::DfaE(_, _)) { "C00 beyond-contract(accept_eof hook)" } else { "C04" };
+                        self.check(&ws == st, || format!("{} state for key {} is {} want {}", p, hex(k), st, ws));
                     }
                 }
             }
